@@ -98,6 +98,10 @@ def emit_site(u, idx, rel, fname, line, text):
             # the name goes through Iden::quoted (verified above): doubled closing quote
             quoted_form = True
             v = mq.group(1)
+        elif re.match(r"^Alias::new\(([a-z_]+)\)\.to_string\(\)$", v):
+            # the name's own text, written VERBATIM (Alias::new / Iden::to_string are under contract above): correct only if the name
+            # cannot contain the closing quote - which nothing guarantees, so the site's obligation fails
+            v = re.match(r"^Alias::new\(([a-z_]+)\)\.to_string\(\)$", v).group(1)
         elif not re.match(r"^[a-z_]+$", v):
             raise Unsupported("raw quote site %s:%d: name expression `%s`" % (rel, line, v))
         params.append("%s: &str" % v)
